@@ -284,6 +284,94 @@ def violates_ws(ops):
     return None
 
 
+def rand_rs_prog(rng):
+    """reads, tells and SEEKS on the reader, inside bounded blocks too - also after the block's end has been passed"""
+    ops = []
+    pos = 0
+    in_block = False
+    for _ in range(rng.randrange(2, 12)):
+        c = rng.random()
+        if c < 0.35:
+            k = rng.choice([1, 2, 3, 6, 8, 13])
+            ops.append("n%d" % k)
+            pos += k
+        elif c < 0.45:
+            ops.append("b")
+            pos += 1
+        elif c < 0.7:
+            target = max(0, pos + rng.choice([-17, -9, -8, -3, -1, 0, 0, 1, 2, 4, 8, 11, 20]))
+            ops.append("k%d,%d" % (target // 8, 7 - target % 8))
+            pos = target
+        elif c < 0.78:
+            ops.append("t")
+        elif c < 0.84:
+            ops.append("r")
+        elif not in_block:
+            ops.append("B%d" % rng.choice([0, 1, 4, 4, 8, 12, 16, 30, -2]))
+            in_block = True
+        else:
+            ops.append("E")
+            in_block = False
+    return ops
+
+
+def violates_rs(data, ops):
+    """bounded blocks by POSITION, on the real BitstreamReader with seeks: inside a block begun at bit offset S with
+    length L the file position never passes S+max(0,L) - by reading (bits past the end read as 1 and consume nothing) or by
+    seeking (a seek beyond the end is refused); a successful seek lands on its target; before the end, bits_remaining is
+    the distance to the end; the bits delivered are the file's bits at the positions read"""
+    from vc2_conformance.bitstream.io import BitstreamReader, to_bit_offset
+
+    r = BitstreamReader(BytesIO(data))
+    nbits = len(data) * 8
+    allbits = [(data[i // 8] >> (7 - i % 8)) & 1 for i in range(nbits)]
+    block = None
+    for i, op in enumerate(ops):
+        c, a = op[0], op[1:]
+        P = to_bit_offset(*r.tell())
+        end = None if block is None else block[0] + max(0, block[1])
+        try:
+            if c in "bn":
+                k = 1 if c == "b" else int(a)
+                v = r.read_bit() if c == "b" else r.read_nbits(k)
+                avail = k if end is None else max(0, min(k, end - P))
+                want = 0
+                for j in range(k):
+                    bit = 1
+                    if j < avail:
+                        bit = allbits[P + j] if P + j < nbits else 1
+                    want = (want << 1) | bit
+                if int(v) != want and P + avail <= nbits:
+                    return "op %d (%s) at bit %d: read %d, the file (and 1s past the block end %s) gives %d" % (i, op, P, int(v), end, want)
+                if to_bit_offset(*r.tell()) != min(P + avail, max(nbits, P)) and P + avail <= nbits:
+                    return "op %d (%s) at bit %d: position advanced to %d, expected %d" % (i, op, P, to_bit_offset(*r.tell()), P + avail)
+            elif c == "B":
+                r.bounded_block_begin(int(a))
+                block = (P, int(a))
+            elif c == "E":
+                r.bounded_block_end()
+                block = None
+            elif c == "k":
+                by, bi = (int(x) for x in a.split(","))
+                r.seek(by, bi)
+                T = to_bit_offset(by, bi)
+                if to_bit_offset(*r.tell()) != T:
+                    return "op %d (%s): tell() after seek is %s" % (i, op, r.tell())
+                if end is not None and T > end:
+                    return "op %d (%s) at bit %d: a seek beyond the end of the bounded block (bit %d) was accepted" % (i, op, P, end)
+            elif c == "r":
+                br = r.bits_remaining
+                if end is not None and P < end and br != end - P:
+                    return "op %d: bits_remaining is %s at bit %d of a block ending at bit %d" % (i, br, P, end)
+                if end is None and br is not None:
+                    return "op %d: bits_remaining is %s outside a block" % (i, br)
+        except Exception as e:  # noqa
+            return None   # the program stops at the first error
+        if end is not None and block is not None and to_bit_offset(*r.tell()) > end and c != "B":
+            return "op %d (%s): the file position %d passed the end of the bounded block (bit %d)" % (i, op, to_bit_offset(*r.tell()), end)
+    return None
+
+
 def bits_str_of_uint(v):
     m = v + 1
     out = ""
@@ -693,6 +781,12 @@ class Prop(object):
             why = violates_ws(prog)
             if why:
                 return {"kind": "seek-writer", "ops": prog, "why": why}
+        for _ in range(ctx.n(6000, 60000)):
+            data = bytes(rng.getrandbits(8) for _ in range(rng.choice([2, 4, 6])))
+            prog = rand_rs_prog(rng)
+            why = violates_rs(data, prog)
+            if why:
+                return {"kind": "seek-reader", "data": data.hex(), "ops": prog, "why": why}
         for v in range(0, 300):
             why = violates_roundtrip([v], [v, -v])
             if why:
@@ -731,6 +825,8 @@ class Prop(object):
             why = violates_roundtrip(fi["uints"], fi["sints"])
         elif fi["kind"] == "seek-writer":
             why = violates_ws(fi["ops"])
+        elif fi["kind"] == "seek-reader":
+            why = violates_rs(bytes.fromhex(fi["data"]), fi["ops"])
         else:
             why = violates_readers_agree(bytes.fromhex(fi["data"]), fi["length"])
         print("replay %s -> %s" % (fi, why or "property holds"))
